@@ -100,13 +100,35 @@ func watchRunCases(col *Collector, tier string, rng *rand.Rand) {
 	if tier == "thorough" {
 		n = 6
 	}
-	results := make([]Case, n+1)
-	parallel(n+1, 4, func(i int) {
-		if i == n {
-			results[i] = watchTwoCase()
-			return
+	results := make([]Case, n+2)
+	seeds := make([]int64, n)
+	for i := range seeds {
+		seeds[i] = rng.Int63() + int64(i)
+	}
+	// these runs depend on the kernel delivering inotify events to a process started a moment ago, on a machine
+	// that may be busy (and on the per-user limit of inotify instances): a failed run is repeated once, and only a
+	// failure that shows both times is reported - a real defect reproduces, a lost event does not
+	twice := func(f func() Case) Case {
+		c := f()
+		if c.Fail == "" {
+			return c
 		}
-		results[i] = watchRunCase(rand.New(rand.NewSource(rng.Int63() + int64(i))))
+		time.Sleep(2 * time.Second)
+		c2 := f()
+		if c2.Fail == "" {
+			c2.Tags = append(c2.Tags, "passed-on-second-attempt")
+		}
+		return c2
+	}
+	parallel(n+2, 3, func(i int) {
+		switch {
+		case i == n:
+			results[i] = twice(watchTwoCase)
+		case i == n+1:
+			results[i] = twice(watchSlowContextCase)
+		default:
+			results[i] = twice(func() Case { return watchRunCase(rand.New(rand.NewSource(seeds[i]))) })
+		}
 	})
 	for _, c := range results {
 		col.Add(c)
@@ -290,6 +312,81 @@ watchers:
 		cs.Fail, cs.Sig = "watcher crashed: "+firstPanicLine(stderr.String()), "c20-panic"
 	case strings.Join(gs, "|") != strings.Join(ws, "|"):
 		cs.Fail, cs.Sig = fmt.Sprintf("task runs %v, the operations on the two watchers' paths were %v", got, want), "c20-two-watchers"
+	}
+	return cs
+}
+
+// two events in quick succession while the task's execution context is slow to get ready (its before hook sleeps):
+// the two task runs overlap, and each must still describe ITS event
+func watchSlowContextCase() Case {
+	root := newScratchDir("c20w3")
+	defer os.RemoveAll(root)
+	os.MkdirAll(filepath.Join(root, "d"), 0755)
+	for _, f := range []string{"a.txt", "b.txt"} {
+		os.WriteFile(filepath.Join(root, "d", f), []byte("x"), 0644)
+	}
+	trace := filepath.Join(root, "trace")
+	cfg := fmt.Sprintf(`
+contexts:
+  slow:
+    before: ["sleep 1.6"]
+tasks:
+  onchange:
+    context: slow
+    command:
+      - 'echo "RAN $EventName $EventPath" >> %s'
+watchers:
+  w:
+    watch: ["%s/d/*.txt"]
+    events: [chmod]
+    task: onchange
+`, trace, root)
+	os.WriteFile(filepath.Join(root, "tasks.yaml"), []byte(cfg), 0644)
+	cs := Case{Tags: []string{"inotify", "overlapping-event-runs"}, NonTrivial: true}
+	cmd := exec.Command(taskctlBin(), "-c", filepath.Join(root, "tasks.yaml"), "watch", "w")
+	cmd.Dir = root
+	cmd.Env = []string{"PATH=" + os.Getenv("PATH"), "HOME=" + root}
+	cmd.SysProcAttr = &syscall.SysProcAttr{Setpgid: true}
+	var stderr strings.Builder
+	cmd.Stderr = &stderr
+	if err := cmd.Start(); err != nil {
+		cs.Fail, cs.Sig = err.Error(), "c20-watch-start"
+		return cs
+	}
+	defer func() {
+		syscall.Kill(-cmd.Process.Pid, syscall.SIGKILL)
+		cmd.Wait()
+	}()
+	// the start-up run
+	deadline := time.Now().Add(8 * time.Second)
+	for len(readTrace(trace)) < 1 && time.Now().Before(deadline) {
+		time.Sleep(50 * time.Millisecond)
+	}
+	time.Sleep(1200 * time.Millisecond)
+	base := len(readTrace(trace))
+	var want []string
+	for i, f := range []string{"a.txt", "b.txt"} {
+		p := filepath.Join(root, "d", f)
+		os.Chmod(p, 0600+os.FileMode(i)*0040)
+		want = append(want, fmt.Sprintf("RAN chmod %s", p))
+		time.Sleep(1100 * time.Millisecond) // the next event is handled while the previous run is still in its context's before hook
+	}
+	time.Sleep(4 * time.Second)
+	got := readTrace(trace)
+	if len(got) >= base {
+		got = got[base:]
+	}
+	cs.Replay = "watch d/*.txt (chmod), task in a context whose before hook sleeps 1.6s; chmod a.txt, 1.1s later chmod b.txt"
+	cs.Impl = strings.Join(got, " | ")
+	gs := append([]string{}, got...)
+	ws := append([]string{}, want...)
+	sort.Strings(gs)
+	sort.Strings(ws)
+	switch {
+	case strings.Contains(stderr.String(), "panic:"):
+		cs.Fail, cs.Sig = "watcher crashed: "+firstPanicLine(stderr.String()), "c20-panic"
+	case strings.Join(gs, "|") != strings.Join(ws, "|"):
+		cs.Fail, cs.Sig = fmt.Sprintf("task runs %v, the events were %v (EventName / EventPath must describe the event that caused the run)", got, want), "c20-event-description"
 	}
 	return cs
 }
